@@ -52,6 +52,9 @@ RunOK(rec) ==
             /\ Clause("snapshot_content", \A e \in Rng(r.entries) : EntryOK(rec.phist[Key(r.label)], e))
             /\ Clause("snapshot_selection", SelectedOK(rec.phist[Key(r.label)], r))
        /\ Clause("each_at_most_once", NoDupEntries(r))
+  \* transaction ids handed out to concurrent operation requests: pairwise different, all newer than every id issued before
+  /\ Clause("transaction_ids_unique", \A i, j \in DOMAIN rec.txids : i # j => rec.txids[i] # rec.txids[j])
+  /\ Clause("transaction_ids_increase", \A i \in DOMAIN rec.txids : rec.txids[i] > rec.txid0)
   /\ Clause("wire_in_version_order", \A i \in 1..(Len(rec.wire) - 1) : rec.wire[i] <= rec.wire[i + 1])
 
 TraceInit == tid \in 1..Len(Traces) /\ l = 0
